@@ -1256,6 +1256,12 @@ int _vnadata_load_touchstone(vnadata_internal_t *vdip, FILE *fp,
 		    tps.tps_filename, tps.tps_line);
 		goto out;
 	    }
+	    if (tps.u.tps_int != 0 && tps.u.tps_int > INT_MAX / tps.u.tps_int) {
+		_vnadata_error(vdip, VNAERR_SYNTAX, "%s (line %d) error: "
+			"[Number of Ports] %d is too large",
+		    tps.tps_filename, tps.tps_line, tps.u.tps_int);
+		goto out;
+	    }
 	    if (reference != NULL) {
 		_vnadata_error(vdip, VNAERR_SYNTAX, "%s (line %d) error: "
 			"[Number of Ports] must appear before [Reference]",
